@@ -29,6 +29,7 @@ func physOf(c CacheAPI, unit int64) ([]Phys, bool) { return nil, false }
 
 type VerifCell struct {
 	Keys    []string
+	Vals    []string
 	Present []bool
 	Hash    []uint64
 	Locked  bool
